@@ -13,7 +13,11 @@ PROOF_NOTE = ("Trusted: Coq 8.16.1 kernel incl. vm_compute (no native_compute); 
 
 RUN_NOTE = ("Trusted: Coq 8.16.1 kernel incl. vm_compute (no native_compute); no axioms (Print Assumptions of every "
             "property theorem: Closed under the global context). The theorems are about the Gallina reference semantics "
-            "(coq/RefSem.v); what ties them to /repo is the differential correspondence run on every invocation (sampling, "
+            "(coq/RefSem.v). The faithful net model (coq/NetModel.v) is PROVED to produce the reference semantics' trace on the "
+            "fragment services / task calls / Parallel / Condition / While (coq/Refine, Properties/Refinement.v: "
+            "net_refines_ref_fragment; all programs, oracles, scripts; engines without immediate or re-entrant completions; "
+            "test identifiers; every sufficiently large fuel); outside that fragment, and between the implementation and the "
+            "net model, what ties them to /repo is the differential correspondence run on every invocation (sampling, "
             "not proof): the implementation, the reference semantics and the faithful net model (coq/NetModel.v, a "
             "transliteration of generator.py / logic.py / scheduler.py that reproduces the implementation's traces "
             "exactly, including re-entrant completions and the known defects) are run on the same generated programs, "
